@@ -3,7 +3,7 @@
    Gen/Fresnel.v is regenerated from src/crystal/crystal_setup.rs, src/beam/mod.rs, src/math/differentiation.rs on every run:
      index_along_gen theta phi nx ny nz d p   CrystalSetup::index_along for crystal angles theta, phi, principal indices
                                                (nx, ny, nz) (what get_indices returned; C01's business), lab direction d,
-                                               polarization p — with the number-of-roots case split and both `return 0` exits
+                                               polarization p — with the number-of-roots case split, the double-root arm for `no real root`, and the sign test
      to_crystal_frame_gen, walkoff_gen, fd_step_gen, optimal_waist_position_gen … likewise
    Model/Fresnel.v is the mathematical statement (Fresnel's wave-normal equation in y = 1/n^2). *)
 From Coq Require Import Reals.
@@ -40,6 +40,28 @@ Theorem C02_index_along_is_fresnel : forall theta phi nx ny nz d p,
   0 < nx -> 0 < ny -> 0 < nz -> unit_vec d ->
   index_along_gen theta phi nx ny nz d p = index_model theta phi nx ny nz d p.
 Proof. exact index_along_is_model. Qed.
+
+(* FULL STRENGTH for the repaired code (the Roots::No arm returns the double root b/2 instead of an `imaginary` 0): whatever
+   roots::find_roots_quadratic answers — the exact case analysis, or `no real root` because the binary64 discriminant rounded
+   below zero next to an optic axis — the generated index_along returns a finite positive value between the fast and the slow
+   Fresnel solution (hence between the smallest and largest principal index), and on an optic axis (exact discriminant 0)
+   exactly the Fresnel solution.  index_along_core_of_gen r is the generated body with the solver's answer r as a parameter;
+   index_along_core_gen is that body at the exact answer. *)
+Theorem C02_index_along_any_solver_answer : forall p nx ny nz sx sy sz r,
+  0 < nx -> 0 < ny -> 0 < nz -> sx * sx + sy * sy + sz * sz = 1 ->
+  r = RootsNo \/
+  r = find_roots_quadratic_monic (index_along_b_gen nx ny nz sx sy sz) (index_along_c_gen nx ny nz sx sy sz) ->
+  fresnel_index Extraordinary nx ny nz sx sy sz <= index_along_core_of_gen r p nx ny nz sx sy sz <= fresnel_index Ordinary nx ny nz sx sy sz /\
+  0 < index_along_core_of_gen r p nx ny nz sx sy sz /\
+  (fdisc (inv2 nx) (inv2 ny) (inv2 nz) (sx * sx) (sy * sy) (sz * sz) = 0 ->
+   index_along_core_of_gen r p nx ny nz sx sy sz = fresnel_index p nx ny nz sx sy sz).
+Proof. exact index_along_any_solver_answer. Qed.
+
+Theorem C02_index_along_core_at_exact_answer : forall p nx ny nz sx sy sz,
+  index_along_core_gen p nx ny nz sx sy sz =
+  index_along_core_of_gen (find_roots_quadratic_monic (index_along_b_gen nx ny nz sx sy sz) (index_along_c_gen nx ny nz sx sy sz))
+    p nx ny nz sx sy sz.
+Proof. exact (fun p nx ny nz sx sy sz => match p with Ordinary => eq_refl | Extraordinary => eq_refl end). Qed.
 
 (* finite (all partial operations defined), positive, between the smallest and largest principal index, fast <= mid <= slow *)
 Theorem C02_bounds : forall nx ny nz sx sy sz,
@@ -174,6 +196,8 @@ Print Assumptions C02_disc_nonneg.
 Print Assumptions C02_roots_of_fresnel.
 Print Assumptions C02_interlace.
 Print Assumptions C02_index_along_is_fresnel.
+Print Assumptions C02_index_along_any_solver_answer.
+Print Assumptions C02_index_along_core_at_exact_answer.
 Print Assumptions C02_bounds.
 Print Assumptions C02_defined.
 Print Assumptions C02_mid_between.
